@@ -177,4 +177,7 @@ pub struct WCase {
     pub seed: u64,
     pub cfg: WCfg,
     pub steps: Vec<Step>,
+    /// C19: inject a destructor fault while the world is dropped (k-th value in the world)
+    #[serde(default, skip_serializing_if = "Option::is_none")]
+    pub final_fault: Option<u16>,
 }
